@@ -4,6 +4,7 @@ package main
 
 import (
 	"fmt"
+	"strings"
 	"sync"
 
 	"golang.org/x/tools/go/ssa"
@@ -143,6 +144,17 @@ func (ip *Interp) epoch(roots []Value) {
 	for _, r := range roots {
 		walk(r)
 	}
+	// every package-level variable of the repository is shared state
+	for _, pkg := range ip.prog.AllPackages() {
+		if !strings.HasPrefix(pkg.Pkg.Path(), ip.repoPrefix) || strings.Contains(pkg.Pkg.Path(), "zzverifrt") {
+			continue
+		}
+		for _, mem := range pkg.Members {
+			if g, ok := mem.(*ssa.Global); ok {
+				ip.globalCell(g)
+			}
+		}
+	}
 	for _, g := range ip.globals {
 		walkCell(g)
 	}
@@ -153,6 +165,10 @@ func (ip *Interp) noteWrite(p *Value, instr ssa.Instruction) {
 	if !ip.old[p] {
 		return
 	}
+	if ip.lockDepth > 0 {
+		ip.syncWrites++
+		return // synchronised (mutex held or inside sync.Once.Do)
+	}
 	where := "?"
 	if instr != nil {
 		where = ip.prog.Fset.Position(instr.Pos()).String()
@@ -162,6 +178,10 @@ func (ip *Interp) noteWrite(p *Value, instr ssa.Instruction) {
 
 func (ip *Interp) noteMapGrow(m *MapV, e *mapEntry) {
 	if !ip.oldMaps[m] {
+		return
+	}
+	if ip.lockDepth > 0 {
+		ip.syncWrites++
 		return
 	}
 	ip.sharedWrites = append(ip.sharedWrites, "update of pre-existing map")
